@@ -4,6 +4,8 @@ C01 - a run never aborts.  Decides (DESIGN.md section 3, C01):
   R01.2 the parse barrier (unparsable file -> reported, None, next module)
   R01.3 barrier census: the four documented catch-alls are shaped as barriers
   R01.4 while loops without an exit of their own make progress (narrow non-termination rule; sa/progress.py)
+  R01.5 docstrings are made UTF-8 encodable where they enter the model (lone surrogates)
+  R01.6 the class of an object looked up by a source-derived name is tested, not asserted
 Does not decide: termination in general (recursion, for loops over growing lists, loops that leave through break), exceptions outside the tables, docutils/twisted internals.
 """
 from __future__ import annotations
@@ -287,6 +289,111 @@ def run(repo: Repo, chk: Check, thorough: bool = False) -> None:
     if n_loops < 30:
         raise AnalysisError(f'R01.4: only {n_loops} while loops found (37 outside tests and the vendored sre parser)')
     chk.require('R01.4', 10)
+
+    # ---- R01.5 source text that ends up on a page can be encoded
+    # Python source may spell a lone surrogate ("\\udc80") in any string literal; the page writer encodes to UTF-8 and aborts on it.  Values go
+    # through _pyval_repr._str_escape (backslashreplace), string annotations through ast.parse (F14); docstrings must be sanitised where
+    # they enter the model.
+    from ..owners import writers
+    LOSSLESS_HANDLERS = ('backslashreplace', 'replace', 'xmlcharrefreplace', 'ignore', 'namereplace', 'surrogateescape', 'surrogatepass')
+
+    def sanitises(g: Func, depth: int = 0) -> bool:
+        for c in calls_in(g):
+            if call_name(c) == 'encode' and any(isinstance(a, ast.Constant) and a.value in LOSSLESS_HANDLERS for a in list(c.args) + [k.value for k in c.keywords]):
+                return True
+        if depth < 2:
+            for c in calls_in(g):
+                cal, how = repo.callees(c, g)
+                if len(cal) == 1 and how == 'direct' and cal[0].mod.name.startswith('pydoctor.') and cal[0] is not g and sanitises(cal[0], depth + 1):
+                    return True
+        return False
+
+    def expr_sanitised(e: ast.AST, g: Func, depth: int = 0) -> bool:
+        """The text denoted by e went through a sanitiser (call to a sanitising function, possibly wrapped in other calls / bound to a local)."""
+        if depth > 4:
+            return False
+        if isinstance(e, ast.Call):
+            cal, how = repo.callees(e, g)
+            if any(sanitises(x) for x in cal):
+                return True
+            return any(expr_sanitised(a, g, depth + 1) for a in e.args)
+        if isinstance(e, ast.Name):
+            vals = [n.value for n in g.walk() if isinstance(n, (ast.Assign, ast.AnnAssign)) and n.value is not None and
+                    any(e.id in [x.id for x in ast.walk(t) if isinstance(x, ast.Name)] for t in (n.targets if isinstance(n, ast.Assign) else [n.target]))]
+            return bool(vals) and all(expr_sanitised(v, g, depth + 1) for v in vals)
+        return False
+    n_doc = 0
+    for w in writers(repo, 'docstring', ['pydoctor.model.Documentable'], unknown_counts=False, skip_modules=('pydoctor.sphinx_ext', 'pydoctor.test')):
+        v = w.node.value if isinstance(w.node, (ast.Assign, ast.AnnAssign)) else None
+        if v is None or (isinstance(v, ast.Constant)) or (isinstance(v, ast.Attribute) and v.attr in ('__doc__', 'docstring')):
+            continue     # constants, live __doc__ of introspected objects, copies of another object's docstring
+        if isinstance(v, ast.Name) and v.id in [p_.arg for p_ in w.func.params()]:
+            # a parameter (Documentable.setDocstring -> self.docstring = doc): judged at the value's producer below
+            srcs = [n for n in w.func.walk() if isinstance(n, ast.Assign) and any(v.id in [x.id for x in ast.walk(t) if isinstance(x, ast.Name)] for t in n.targets)]
+            if not srcs:
+                continue
+        n_doc += 1
+        ok5 = expr_sanitised(v, w.func)
+        chk.ob('R01.5', f'{w.func.qn} :: docstring <- {norm(v)[:40]} is made encodable', ok5,
+               'unencodable characters (lone surrogates) are replaced where the text enters the model' if ok5 else
+               f'`{norm(w.node)[:70]}` stores source text as is: a docstring spelling a lone surrogate ("\\udc80", e.g. when describing surrogateescape) makes '
+               'the page writer raise UnicodeEncodeError (FlattenerError); the run aborts and no later page, index or inventory is written', w.loc)
+    if n_doc < 2:
+        raise AnalysisError(f'R01.5: {n_doc} docstring ingestion points found (2 confirmed: Documentable.setDocstring, ModuleVistor._handleDocstringUpdate)')
+    chk.require('R01.5', 2)
+
+    # ---- R01.6 what a name resolves to is not asserted
+    # `assert isinstance(x, T)` aborts the run when it fails.  When x is whatever the registry holds under a *name* taken from the analysed
+    # source (objForFullName(name), allobjects[name], contents[name], find_object, resolveName), nothing guarantees its class.
+    NAME_LOOKUPS = ('objForFullName', 'find_object', 'resolveName')
+    REGISTRIES = ('allobjects', 'contents')
+    ASSERT_REASONED = {
+        'pydoctor.model.System._addUnprocessedModule': 'modules are registered (addPackage/addModule) before any module is processed, so nothing but a module '
+                                                       'can already hold a module name at that point',
+        'pydoctor.model.SystemBuilder.addModule': 'programmatic builder API: the parent name is computed by the caller from the same path, not from analysed source',
+        'pydoctor.model.SystemBuilder.addModuleString': 'programmatic builder API (tests, sphinx extension): parent_name is an argument of the caller',
+        'pydoctor.extensions.deprecate.ModuleVisitor.depart_ClassDef': 'reads back contents[node.name] right after the main visitor built the class of that name; '
+                                                                       'nothing can replace the entry in between (definitions nested in functions raise KeyError, handled)',
+    }
+
+    def _is_lookup(e: ast.AST) -> Optional[str]:
+        for x in ast.walk(e):
+            if isinstance(x, ast.Call) and call_name(x) in NAME_LOOKUPS:
+                return norm(x)[:50]
+            if isinstance(x, ast.Call) and call_name(x) == 'get' and isinstance(x.func, ast.Attribute) and isinstance(x.func.value, ast.Attribute) and x.func.value.attr in REGISTRIES:
+                return norm(x)[:50]
+            if isinstance(x, ast.Subscript) and isinstance(x.value, ast.Attribute) and x.value.attr in REGISTRIES and isinstance(x.ctx, ast.Load):
+                return norm(x)[:50]
+        return None
+    n_as = 0
+    for f in sorted(repo.funcs.values(), key=lambda f: f.qn):
+        if '.test' in f.mod.name or f.mod.name in tables.OPAQUE_MODULES or f.mod.name.startswith('pydoctor.sphinx_ext'):
+            continue
+        for a in f.walk():
+            if not isinstance(a, ast.Assert):
+                continue
+            if isinstance(a.test, ast.Call) and call_name(a.test) == 'isinstance' and a.test.args:
+                subj = a.test.args[0]
+            elif isinstance(a.test, ast.Compare) and isinstance(a.test.left, ast.Attribute) and a.test.left.attr == 'kind':
+                subj = a.test.left.value        # `assert x.kind is K`: the kind of a looked-up object depends on the source just as much
+            else:
+                continue
+            vals: List[ast.AST] = [subj]
+            if isinstance(subj, ast.Name):
+                vals = [n.value for n in f.walk() if isinstance(n, (ast.Assign, ast.AnnAssign)) and n.value is not None and
+                        any(isinstance(t, ast.Name) and t.id == subj.id for t in (n.targets if isinstance(n, ast.Assign) else [n.target]))] or [subj]
+            look = next((l for l in (_is_lookup(v) for v in vals) if l), None)
+            if look is None:
+                continue
+            n_as += 1
+            key = f'{f.qn} :: {norm(a.test)[:60]}'
+            if f.qn in ASSERT_REASONED:
+                chk.ob('R01.6', key, True, f'reasoned exception: {ASSERT_REASONED[f.qn]}', repo.loc(f.mod, a), kind='reasoned-exception')
+                continue
+            chk.ob('R01.6', key, False,
+                   f'the class of `{look}` is asserted, not tested: when the name taken from the analysed source resolves to another kind of object the '
+                   'AssertionError escapes and the run aborts', repo.loc(f.mod, a))
+    chk.stats['asserts_on_name_lookups'] = n_as
 
 
 def _role(f: Func, c: ast.Call) -> str:
